@@ -25,7 +25,10 @@ impl BitRead for (&[u8], &mut usize) {
         dst: &mut [u8],
         dst_bit_offset: usize,
     ) -> Result<(), Error> {
-        self.read_bits_with_offset_len(dst, dst_bit_offset, dst.len() * BYTE_LEN - dst_bit_offset)
+        let dst_bit_len = (dst.len() * BYTE_LEN)
+            .checked_sub(dst_bit_offset)
+            .ok_or_else(Error::insufficient_space_in_destination_buffer)?;
+        self.read_bits_with_offset_len(dst, dst_bit_offset, dst_bit_len)
     }
 
     #[inline]
@@ -68,7 +71,10 @@ impl<'a> BitWrite for (&'a mut [u8], &mut usize) {
 
     #[inline]
     fn write_bits_with_offset(&mut self, src: &[u8], src_bit_offset: usize) -> Result<(), Error> {
-        self.write_bits_with_offset_len(src, src_bit_offset, src.len() * BYTE_LEN - src_bit_offset)
+        let src_bit_len = (src.len() * BYTE_LEN)
+            .checked_sub(src_bit_offset)
+            .ok_or_else(Error::insufficient_data_in_source_buffer)?;
+        self.write_bits_with_offset_len(src, src_bit_offset, src_bit_len)
     }
 
     #[inline]
